@@ -6,6 +6,11 @@ props = [json.loads(l) for l in open(os.path.join(V, "properties.jsonl"))]
 
 TECH = "Rocq proof over an executable Gallina model + model/implementation correspondence"
 CLAIMS = {
+ "C01": ("proof", "Rocq theorem eval_exact: on every syntax tree of numeric shape (number leaves, percentages, OPERATION nodes folded left) the evaluator model returns a plain number equal to what exact rational arithmetic (spec/Arith.v) assigns, an error exactly where arithmetic is undefined (division by zero, zero to a negative power), and leaves the description list unchanged; by induction over the tree, the pow loop shown equal to Qpower. Tied to the code by exact numerator/denominator comparison of model and implementation on generated expressions with literals of up to 300 digits.",
+         "Trusted: Coq kernel + vm_compute; the hand-written evaluator model over Coq's Q (num::BigRational assumed exact, exercised by the correspondence); the correspondence; an independent Python-fractions evaluator as oracle. That the parser yields the intended tree is C06."),
+ "C06": ("proof", "Rocq theorems: the precedence-stack discipline of operation(), abstracted into frames, yields for ANY number of operators a parse valid for the documented grammar with the input as yield; that grammar is unambiguous; hence climb = canon (level splitting: ^ over * / over + - over to, left to right). The concrete lexer+parser model is tied to it inside the kernel by computation for all operator sequences of length <= 5 and all one-gap layout variants (bound in the statement). Parentheses, calls, casts and deeper trees are decided by correspondence plus an independent tree evaluator.",
+         "Trusted: Coq kernel + vm_compute; the hand-written parser model; correspondence; Python oracle. The general refinement forest-model -> frames (beyond 5 operators, with parentheses) is not proved: partial."),
+
  "C07": ("proof", "Rocq theorem: the byte state machine of `Rational::from_str` reads every well-formed literal of any length as exactly the number it spells; a text lexed as one NUMBER token (optionally followed by %) evaluates as a query to what the number parser reads. Tied to the code by running model and implementation on all well-formed literals up to a length bound, random literals up to 300 digits and a malformed sweep.",
          "Trusted: Coq kernel + vm_compute; the hand-written model; the correspondence; an independent Python reading of literals as oracle. The lexer-takes-the-whole-literal step is discharged per input (correspondence), not yet by a general lemma."),
  "C08": ("proof", "Rocq theorem display_faithful: for every value, digit limit and exponent threshold what the formatter prints is the value cut off toward zero at the last printed digit, with the mark set exactly when non-zero digits were cut; proved on all three formatter paths from the long-division invariant. Tied to the code by comparing the printed characters of model and implementation.",
